@@ -140,6 +140,16 @@ def check_text(text, impls=None):
                     continue
                 if got != exp[fn]:
                     what = '(line, col, start, end, text)' if fn == 'lineinfo' else fn
+                    if fn == 'lineinfo' and pos == len(text) and text[-1:] in ('\n', '\r'):
+                        # the known answer is exactly the line information of the final line-break character;
+                        # anything else at this offset is a different failure
+                        l1, c1, s1, t1 = spec_pos(text, pos - 1)
+                        if got != (l1, c1, s1, s1 + len(t1), t1):
+                            own = 'buffer-own-' if impl == 'Buffer' else ''
+                            fails.append(dict(witness={'impl': impl, 'text': text, 'pos': pos, 'call': call},
+                                              detail=f'{call}: {what} = {got!r} is neither the new empty line {exp[fn]!r} nor the last line',
+                                              cls=f'{own}lineinfo-at-eof-after-line-break-inconsistent'))
+                            continue
                     fails.append(dict(witness={'impl': impl, 'text': text, 'pos': pos, 'call': call},
                                       detail=f'{call}: {what} = {got!r}, spec (split at line breaks) = {exp[fn]!r}',
                                       cls=_cls_a(impl, fn, text, pos, None)))
